@@ -8,7 +8,7 @@ COQ_DIRS = PC.COQ_DIRS
 RULE = ("histories of kernel events (spawn/exit->zombie/reap/PID reuse/clock steps of -100000..10^9 s) and psutil calls over PIDs "
         "{0,1,2,3,7,2^31-1}, start ticks from 21 values (bases 0..2^40, 10^12, each +0/+1/+2) with PID reuse at adjacent ticks (p=0.6), process names with 0-3 blanks/parentheses/15 bytes, thread-count changes, drawn from a weighted grammar with motifs 'clock step, "
         "boot_time(), second object for the same process, ==/hash/is_running' and 'process ends, queries, PID reused, "
-        "is_running/==/hash between old and new object'; copies of Process objects (copy.copy / copy.deepcopy / pickle round trip / pickle dumped while alive and loaded after the PID was recycled; what the tree under test supports is probed) made from live and from stale originals, then ==/hash/is_running/signals/setters on the copy; wait()/wait_procs() through the real wait_pid with the PID invisible to os.kill/os.waitpid in the caller's namespace (foreign procfs) followed by is_running/==/hash on that and on fresh objects; objects built while /proc/<pid>/stat is unreadable (EACCES; identity (pid, None)) with hash() before/after the file becomes readable and is_running() is called, PID reuse in between, ==/hash against fresh objects both ways; process_iter() generators suspended before a recycled PID whose cached object is then found stale (binding of every held object checked after every event); two PIDs spawned with the same start tick, == against non-Process operands (int = pid, tuple = _ident, object(), None, str, float), psutil.Popen objects without identity later compared with the owner of their PID; objects also come from process_iter() and psutil.Popen; calls also inside oneshot() blocks. Class = most specific feature "
+        "is_running/==/hash between old and new object'; copies of Process objects (copy.copy / copy.deepcopy / pickle round trip / pickle dumped while alive and loaded after the PID was recycled; what the tree under test supports is probed) made from live and from stale originals, then ==/hash/is_running/signals/setters on the copy; wait()/wait_procs() through the real wait_pid with the PID invisible to os.kill/os.waitpid in the caller's namespace (foreign procfs) followed by is_running/==/hash on that and on fresh objects; objects built while /proc/<pid>/stat is unreadable (EACCES; identity (pid, None)) with hash() before/after the file becomes readable and is_running() is called, PID reuse in between, ==/hash against fresh objects both ways; process_iter() generators suspended before a recycled PID whose cached object is then found stale (binding of every held object checked after every event); two PIDs spawned with the same start tick, == against non-Process operands (int = pid, tuple = _ident, object(), None, str, float), psutil.Popen objects without identity later compared with the owner of their PID; objects also come from process_iter() and psutil.Popen; calls also inside oneshot() blocks; process-wide who-am-I state: every 6th generated history is run again by an observer whose own os.getpid() is the most used table PID of that history (os.getpid patched for the case; every other Process(pid) on it in the call form Process(); class +ownpid), plus a systematic block of 350 histories (never sampled): Process()/Process(getpid()) for the own number x warm-up (none/is_running/hash/create_time+boot_time+ppid/process_iter) x entry alive/zombie/reaped/exit+reaped x construction attempted while the entry is missing x number recycled at the adjacent/a distant tick/not, fresh handles in both call forms, ==/hash/is_running both ways, aliasing on and off, own number 3 and 7 (the PID psutil was imported under); 84 of them continued after a REAL os.fork() in the child (os.getpid() = table PID 2 = child of the observer, or the real PID), which reports through a pipe. Class = most specific feature "
         "reached (eq-same-pid-other-proc, isrun-reused, clock, eq-same-proc, ...). Non-trivial = some ==/hash/is_running on an "
         "object was executed; distinct = distinct canonical history.")
 TRUSTED = PC.TRUSTED
@@ -46,7 +46,7 @@ MANIFEST = {
             "a == b and hash(a) == hash(b) hold exactly when both objects were created for the same process start (same incarnation, "
             "hence same PID); hash is stable; is_running() is True exactly while that incarnation is in the process table (zombie "
             "included) and, once False, False ever after; for EVERY history (also with unreadable stat files, objects without identity): the identity of an object never changes, hash agrees with ==, is_running() never returns to True; different PIDs never compare equal (also with equal start ticks); == against a "
-            "non-Process operand is False; a psutil.Popen built for a child already gone is bound to no process and never running. The model (coq/Proc/Model.v) is tied to the code by running both on generated "
+            "non-Process operand is False; Process() without argument (os.getpid() = a number of the table psutil reads; the only use of the caller's PID) raises NoSuchProcess when the table has no such entry and is otherwise bound to the current owner of that number, is_running() following the table; a psutil.Popen built for a child already gone is bound to no process and never running. The model (coq/Proc/Model.v) is tied to the code by running both on generated "
             "histories over a fake /proc whose btime line is stepped.",
     "note": "Trusted: Coq kernel + vm_compute; hand-written model coq/Proc/Model.v (tied by the correspondence run only); ghost "
             "incarnations in coq/Proc/Spec.v; harness (fake /proc); identity float start/CLK_TCK injective for ticks < 2^52; CPython "
